@@ -89,7 +89,8 @@ def clean_frame(rng, stuffing: bool, abort: bool, seq=None, flag_free: bool = Fa
         if flag_free and FLAG in octets:
             continue
         if stuffing and rng.random() < 0.1:
-            item["extra_esc"] = sorted({rng.randrange(256) for _ in range(rng.randint(1, 4))} - {0x5E})
+            # a sender may also escape the control characters of its async map (RFC 1662 ACCM: 0x00..0x1F)
+            item["extra_esc"] = sorted({rng.randrange(0x20) for _ in range(rng.randint(1, 4))})
         return item
 
 
